@@ -51,7 +51,13 @@ def _locus_in(locus, params):
     return True
 
 
+def _locus_multi(locus, params):
+    """params: {"equals": {...}, "in": {...}} - both parts must hold."""
+    return _locus_equals(locus, params.get("equals", {})) and _locus_in(locus, params.get("in", {}))
+
+
 MATCHERS = {
+    "locus_multi": _locus_multi,
     "always": _always,
     "locus_equals": _locus_equals,
     "locus_in": _locus_in,
